@@ -56,9 +56,55 @@ fn classes() -> Vec<(&'static str, fn(&TypeDef, &WExpr) -> bool)> {
     ]
 }
 
-fn excluded_by(open: &[bool], td: &TypeDef, w: &WExpr) -> bool {
+fn excluded_by(open: &[bool], td: &TypeDef, w: &WExpr, frac_floats: bool) -> bool {
     let cl = classes();
-    w.any_node(&|n| cl.iter().enumerate().any(|(i, (_, p))| open[i] && p(td, n)))
+    // in a fractional-only case every float value and every literal on a float column sits in the float byte lane, which is
+    // outside the open finding about the two lanes of a float column (class 1): range comparisons on floats are judged there
+    w.any_node(&|n| cl.iter().enumerate().any(|(i, (_, p))| open[i] && !(i == 1 && frac_floats) && p(td, n)))
+}
+
+/// fractional-only image of the shared float value domain (keeps the order of magnitude, adds negative values)
+fn frac_value(x: f64) -> f64 {
+    if x == 2.0 {
+        -3.25
+    } else if x == 3.0 {
+        -1.25
+    } else if x == 0.0 {
+        -0.75
+    } else if x == 1e10 {
+        7.125
+    } else if x.fract() == 0.0 {
+        x + 0.25
+    } else {
+        x
+    }
+}
+
+fn frac_where(td: &TypeDef, w: &mut WExpr) {
+    let fix = |l: &mut Lit| match l {
+        Lit::Int(i) => *l = Lit::Float(*i as f64 - 0.4),
+        Lit::Float(x) if x.fract() == 0.0 => *x -= 0.4,
+        _ => {}
+    };
+    match w {
+        WExpr::Cmp { field, lit, .. } => {
+            if fty(td, field) == FT::Float {
+                fix(lit)
+            }
+        }
+        WExpr::In { field, lits } => {
+            if fty(td, field) == FT::Float {
+                for l in lits.iter_mut() {
+                    fix(l)
+                }
+            }
+        }
+        WExpr::And(a, b) | WExpr::Or(a, b) => {
+            frac_where(td, a);
+            frac_where(td, b);
+        }
+        WExpr::Not(a) => frac_where(td, a),
+    }
 }
 
 /// time values and literals of the shared generators sit on a half-hour grid from 1_700_000_000; a case
@@ -121,9 +167,10 @@ fn case_strategy(tier: Tier, open: Vec<bool>, no_big_u64: bool) -> BoxedStrategy
             let leafq = leaf_strategy(&td).prop_map(|w| Q { ctx: None, since: None, w });
             // (base, step): the shared grid, around a day boundary, hour steps, day steps
             let grid = prop::sample::select(vec![(1_700_000_000i64, 1800i64), (1_699_920_000 - 1800, 1800), (1_699_999_200 - 3600, 3600), (1_699_920_000 - 86_400, 86_400), (1_699_920_000 - 3, 1)]);
-            (Just(cfg), Just(td), prop::collection::vec(op, 8..=max_ops), prop::collection::vec(prop_oneof![2 => q, 3 => leafq], 4..=12), grid)
+            (Just(cfg), Just(td), prop::collection::vec(op, 8..=max_ops), prop::collection::vec(prop_oneof![2 => q, 3 => leafq], 4..=12), grid, any::<bool>())
         })
-        .prop_map(move |(cfg, td, mut ops, mut queries, (base, step))| {
+        .prop_map(move |(cfg, td, mut ops, mut queries, (base, step), frac_floats)| {
+            let frac_floats = frac_floats && td.fields.iter().any(|f| f.ty == FT::Float);
             let mut excluded_data = 0u32;
             for op in ops.iter_mut() {
                 if let Op::Store(ev) = op {
@@ -138,14 +185,22 @@ fn case_strategy(tier: Tier, open: Vec<bool>, no_big_u64: bool) -> BoxedStrategy
                                 ev.vals[i] = json!(remap_time(v, base, step));
                             }
                         }
+                        if frac_floats && f.ty == FT::Float {
+                            if let Some(x) = ev.vals[i].as_f64() {
+                                ev.vals[i] = json!(frac_value(x));
+                            }
+                        }
                     }
                 }
             }
             for q in queries.iter_mut() {
                 remap_where(&td, &mut q.w, base, step);
+                if frac_floats {
+                    frac_where(&td, &mut q.w);
+                }
             }
             let before = queries.len();
-            queries.retain(|q| !excluded_by(&open, &td, &q.w));
+            queries.retain(|q| !excluded_by(&open, &td, &q.w, frac_floats));
             let excluded = (before - queries.len()) as u32 + excluded_data;
             Case { cfg, td, ops, queries, excluded }
         })
